@@ -162,6 +162,24 @@ fn check_utf32(ctx: &Ctx, case: &CaseId, bytes: Vec<u8>) {
 /// Put `text` of `kind` into a subject attribute (and, for IA5, into SANs), serialise, decode
 /// independently and compare text and tag. Returns false on mismatch (after reporting).
 fn check_serialise(ctx: &Ctx, case: &CaseId, key: &rcgen::KeyPair, kind: StrKind, text: &str) -> bool {
+	check_serialise_as(ctx, case, key, kind, text, DnType::OrganizationName)
+}
+
+/// the attribute types a value can sit under: the encoding of the value must not depend on it
+fn attr_types() -> Vec<DnType> {
+	vec![
+		DnType::CountryName,
+		DnType::LocalityName,
+		DnType::StateOrProvinceName,
+		DnType::OrganizationName,
+		DnType::OrganizationalUnitName,
+		DnType::CommonName,
+		DnType::CustomDnType(vec![0, 9, 2342, 19200300, 100, 1, 25]),
+		DnType::CustomDnType(vec![1, 2, 840, 113549, 1, 9, 1]),
+	]
+}
+
+fn check_serialise_as(ctx: &Ctx, case: &CaseId, key: &rcgen::KeyPair, kind: StrKind, text: &str, ty: DnType) -> bool {
 	let mut p = CertificateParams::default();
 	let mut dn = DistinguishedName::new();
 	let value = match crate::guard(|| dn_value(kind, text)) {
@@ -177,7 +195,7 @@ fn check_serialise(ctx: &Ctx, case: &CaseId, key: &rcgen::KeyPair, kind: StrKind
 			return false;
 		},
 	};
-	dn.push(DnType::OrganizationName, value);
+	dn.push(ty.clone(), value);
 	p.distinguished_name = dn;
 	p.serial_number = Some(rcgen::SerialNumber::from_slice(&[1]));
 	if kind == StrKind::Ia5 {
@@ -185,7 +203,7 @@ fn check_serialise(ctx: &Ctx, case: &CaseId, key: &rcgen::KeyPair, kind: StrKind
 		p.subject_alt_names = vec![SanType::DnsName(ia5.clone()), SanType::Rfc822Name(ia5.clone()), SanType::URI(ia5)];
 	}
 	ctx.count("eval:serialise_calls");
-	let label = format!("{:?} {:?}", kind, crate::util::clip(text, 80));
+	let label = format!("{:?} {:?} under {:?}", kind, crate::util::clip(text, 80), ty);
 	let cert = match crate::guard(|| p.self_signed(key)) {
 		Err(pn) => {
 			ctx.violation(&format!("c13:serialise-panic:{:?}", kind), case, &label, &pn);
@@ -568,13 +586,28 @@ pub fn run(ctx: &Ctx) {
 					}
 				}
 				let (kind, c) = pos_jobs[i as usize];
-				for text in [format!("{}", c), format!("{}x", c), format!("x{}", c), format!("x{}y", c), format!("{}{}", c, c)] {
+				let tys = attr_types();
+				for (ti, text) in [format!("{}", c), format!("{}x", c), format!("x{}", c), format!("x{}y", c), format!("{}{}", c, c)].into_iter().enumerate() {
 					ctx.count("enum:serialise_positions");
-					if !check_serialise(ctx, &case, &key, kind, &text) {
+					// the attribute type rotates with character and position, so every string type meets every attribute type
+					let ty = tys[(i as usize + ti) % tys.len()].clone();
+					if !check_serialise_as(ctx, &case, &key, kind, &text, ty) {
 						break;
 					}
 				}
 			});
+		}
+		// every string type under every attribute type with the texts real names hold
+		if !miri {
+			let case = CaseId::new("serialise-types", 0, 0);
+			for kind in ALL_KINDS {
+				for ty in attr_types() {
+					for text in ["US", "DE", "Example Org", "example.com", "a", "A1", ""] {
+						ctx.count("enum:serialise_types");
+						check_serialise_as(ctx, &case, &key, kind, text, ty.clone());
+					}
+				}
+			}
 		}
 		// empty strings and a long one per kind
 		let case = CaseId::new("serialise", 0, u64::MAX);
